@@ -3,6 +3,7 @@ use serde_json::Value;
 
 pub mod c04;
 pub mod c05;
+pub mod c08;
 pub mod c09;
 pub mod c16;
 pub mod c17;
@@ -11,6 +12,7 @@ pub fn run(ctx: &Ctx) -> Option<PropReport> {
     Some(match ctx.prop.as_str() {
         "C04" => c04::run(ctx),
         "C05" => c05::run(ctx),
+        "C08" => c08::run(ctx),
         "C09" => c09::run(ctx),
         "C16" => c16::run(ctx),
         "C17" => c17::run(ctx),
@@ -22,6 +24,7 @@ pub fn replay(ctx: &Ctx, sub: &str, case: &Value) -> Result<(), Fail> {
     match ctx.prop.as_str() {
         "C04" => c04::replay(ctx, sub, case),
         "C05" => c05::replay(ctx, sub, case),
+        "C08" => c08::replay(ctx, sub, case),
         "C09" => c09::replay(ctx, sub, case),
         "C16" => c16::replay(ctx, sub, case),
         "C17" => c17::replay(ctx, sub, case),
